@@ -891,6 +891,13 @@ func (e *Engine) concreteInt(v Value, what string) int64 {
 		if v.IsConst() {
 			return sext(v.val, v.w)
 		}
+		if s := e.simplify(v); s.IsConst() {
+			return sext(s.val, s.w)
+		}
+		// fork over the values of a table term / small-domain term
+		if r, ok := e.concretizeTerm(v).(int64); ok {
+			return r
+		}
 		panic(pathEnd{kind: "unsupported", msg: "symbolic " + what})
 	}
 	panic(fmt.Sprintf("concreteInt: %T", v))
